@@ -104,11 +104,8 @@ func upgradeScenario(tw *hx.TraceWriter, rep *hx.Report, seed int64, zero bool) 
 	sc.block(sc.feat(kOwner, "F1", h+8))
 	sc.block()
 	sc.restart()
-	vh := int64(h + 12)
-	if zero {
-		vh = 2
-	}
-	sc.block(sc.version(kOwner, vh, "0.2.0", "F2", h+9))
+	// version upgrades name a past height (see MCChainGov.VerHeight)
+	sc.block(sc.version(kOwner, 2, "0.2.0", "F2", h+9))
 	sc.restart()
 	sc.block(sc.feat(kOwner, "BLOCK", h+10)) // re-scheduling a feature whose activation extends the ACL
 	sc.block(sc.param(kOwner, "gov/daoOwner", true))
@@ -159,11 +156,7 @@ func randomScenario(tw *hx.TraceWriter, rep *hx.Report, idx, blocks int) {
 				case 0:
 					txs = append(txs, sc.feat(from, fk, h+1+rng.Intn(6), []string{"F1", "F2"}[rng.Intn(2)], h+2+rng.Intn(6)))
 				case 1:
-					vh := int64(h + 20)
-					if sc.w.s.Project().Upgrade.Height == 0 {
-						vh = 2
-					}
-					txs = append(txs, sc.version(from, vh, []string{"0.2.0", "0.3.0", "0.1.5"}[rng.Intn(3)], fk, h+1+rng.Intn(6)))
+					txs = append(txs, sc.version(from, int64(2+rng.Intn(2)), []string{"0.2.0", "0.3.0", "0.1.5"}[rng.Intn(3)], fk, h+1+rng.Intn(6)))
 				default:
 					txs = append(txs, sc.feat(from, fk, h+1+rng.Intn(8)))
 				}
